@@ -335,7 +335,8 @@ func partE(r *core.Run, col *collector, sp *sampler, ordBase int64) modeBounds {
 		sts := [2]*station{newModeStation(false), newModeStation(true)}
 		mine := newCollector()
 		rest := sequencesIdx(len(it.steps), it.n-1)
-		var served [2][]ostep // what each station served before the current history (its requests are one long history)
+		// everything each pooled ctx served so far, in order (the requests one ctx serves are one long history)
+		served := map[uintptr][]ostep{}
 		for hi, tail := range rest {
 			hist := []ostep{it.steps[it.first]}
 			for _, j := range tail {
@@ -345,16 +346,19 @@ func partE(r *core.Run, col *collector, sp *sampler, ordBase int64) modeBounds {
 				split := si == 1
 				caseOrd := it.ord + int64(hi)*2 + int64(si)
 				var seen []oseen
+				var before [][]ostep // per request of the history: what its ctx had served before it
 				oneCtx := false
 				// the pool hands the ctx of the previous request to the next one served on the same processor; a
 				// history that was moved in between is run again
 				for try := 0; try < 8 && !oneCtx; try++ {
-					seen = seen[:0]
+					seen, before = seen[:0], before[:0]
 					oneCtx = true
 					var id uintptr
 					for k, s := range hist {
 						o, cid := st.runStep(s)
 						seen = append(seen, o)
+						before = append(before, served[cid])
+						served[cid] = append(served[cid], s)
 						if k > 0 && o.Calls > 0 && cid != id {
 							oneCtx = false
 						}
@@ -375,8 +379,6 @@ func partE(r *core.Run, col *collector, sp *sampler, ordBase int64) modeBounds {
 						break
 					}
 				}
-				before := served[si]
-				served[si] = hist
 				if bad < 0 {
 					l.Outcome(fmt.Sprintf("E history len=%d last=%s/%s as-on-fresh-application", len(hist), hist[len(hist)-1].mode, hist[len(hist)-1].inputClass()))
 					if caseOrd%4099 == 11 {
@@ -388,7 +390,7 @@ func partE(r *core.Run, col *collector, sp *sampler, ordBase int64) modeBounds {
 				l.Outcome(fmt.Sprintf("E history len=%d judged=%s/%s %s", len(hist), js.mode, js.inputClass(), aspect))
 				// the earlier request whose options differ from the judged one's (the candidate origin)
 				earlier := "same-options"
-				chain := append(append([]ostep(nil), before...), hist[:bad]...)
+				chain := before[bad]
 				if len(chain) == 0 {
 					earlier = "none"
 				}
